@@ -163,15 +163,13 @@ Theorem C04_calibrate_leaves_current_checkpoint :
 Proof. exact calibrate_leaves_current_checkpoint. Qed.
 Print Assumptions C04_calibrate_leaves_current_checkpoint.
 
-(* ... but NOT for n = 0 (finding calibrate-zero-no-checkpoint): calibrate(0) on a fresh calibrator returns normally,
-   has changed the calibrator (samplers reseeded, generator advanced) and writes nothing. *)
-Theorem C04_calibrate_zero_checkpoint_refuted :
-  exists s s' ret, c_saving (cfg _ _ _ (live _ _ _ s)) = true /\
-    calibrate nat nat nat (fun p _ => p) (fun _ => 0) Nat.leb (fun _ _ => false) (fun _ _ _ => [0]) (fun _ => 7%Z) (fun _ => 0) NoFault 0 s
-      = (s', None, ret) /\
-    live _ _ _ s' <> live _ _ _ s /\ disk _ _ _ s' = None.
-Proof. exact calibrate_zero_checkpoint_refuted. Qed.
-Print Assumptions C04_calibrate_zero_checkpoint_refuted.
+(* ... and for n = 0 as well (repair 32f0e7b): the state calibrate(0) returns with is checkpointed. *)
+Theorem C04_calibrate_zero_leaves_current_checkpoint :
+  forall Param Series LossV model lossf loss_leb rounds0 propose draws agent_actions plan (s s' : cstate Param Series LossV) ret,
+    calibrate Param Series LossV model lossf loss_leb rounds0 propose draws agent_actions plan 0 s = (s', None, ret) ->
+    c_saving (cfg _ _ _ (live _ _ _ s')) = true -> disk _ _ _ s' = Some (live _ _ _ s').
+Proof. exact calibrate_zero_leaves_current_checkpoint. Qed.
+Print Assumptions C04_calibrate_zero_leaves_current_checkpoint.
 
 (* Finding (b): a scheduler that cannot be pickled (the RL scheduler: thread, queues, locks).  create_checkpoint raises
    with the scheduler pickle truncated; the json (written last since 8564019) is still the previous one, and whatever
